@@ -270,7 +270,8 @@ carquet_status_t carquet_row_group_writer_finalize(
         }
 
         current_offset += col_size;
-        writer->total_byte_size += col_size;
+        /* RowGroup.total_byte_size is the uncompressed size of the column data */
+        writer->total_byte_size += uncompressed_size;
     }
 
     if (data) *data = writer->row_group_buffer.data;
